@@ -266,6 +266,11 @@ func (w *world) execOp(line string) string {
 	var items []string
 	for _, k := range keys {
 		a := cur[k]
+		// an empty record (balance 0, no lock) reads exactly like a missing one through every API of the contract: whether the
+		// contract keeps or drops it is not observable, so neither side prints it
+		if a.bal.Sign() == 0 && a.till.Sign() == 0 && len(a.parent) == 0 {
+			continue
+		}
 		items = append(items, fmt.Sprintf("%s:%s:%s:%s", k, a.bal, a.till, hx.Hex(a.parent)))
 	}
 	fmt.Fprintf(&sb, " | supply=%s accts=[%s]", sup, strings.Join(items, ";"))
